@@ -17,7 +17,9 @@ thread_local! {
 pub fn install_quiet_panic_hook() {
     std::panic::set_hook(Box::new(|info| {
         if GUARD_DEPTH.with(|d| d.get()) == 0 {
-            eprintln!("machinery error: panic in the harness itself (not in the code under test): {info}");
+            eprintln!(
+                "machinery error: panic in the harness itself (not in the code under test): {info}"
+            );
         }
     }));
 }
